@@ -432,6 +432,64 @@ def check_path_orders(path, graphs):
     return viols, evals
 
 
+def _str(x):
+    return ("L", x, None, None)
+
+
+FUNC_GRAPHS = [
+    [(C04.A, C04.Q, _str("apple")), (C04.A, C04.P, _str("^a")), (C04.B, C04.Q, _str("banana")), (C04.B, C04.P, _str("^b")), (C04.B, C04.Q, _str("Apple"))],
+    [(C04.A, C04.Q, _str("apple")), (C04.A, C04.P, _str("^a"))],
+    [(C04.B, C04.Q, _str("banana")), (C04.B, C04.P, _str("^b")), (C04.B, C04.Q, _str("apple"))],
+]
+FUNC_FILTERS = ["regex(?l, ?pat)", "regex(?l, ?pat, \"i\")", "contains(?l, substr(?pat, 2))", "strstarts(?l, substr(?pat, 2))", "replace(?l, ?pat, \"X\") != ?l",
+                "?l IN (?pat, \"apple\")", "if(regex(?l, ?pat), strlen(?l) > 5, strlen(?l) < 6)", "strbefore(?l, substr(?pat, 2)) = \"\"", "lcase(?l) = concat(substr(?pat, 2), \"pple\")",
+                "regex(?l, concat(?pat, \"p\"))", "ucase(substr(?pat, 2)) = substr(?l, 1, 1)"]
+
+
+def check_function_queries(fexpr):
+    """A filter whose function arguments vary from row to row (patterns, flags and substrings taken from the data): every listed rewriting and
+    every evaluation sequence of one prepared query must answer as a freshly parsed query does (no per-call-site state)."""
+    p_, q_ = "<%sp>" % EX, "<%sq>" % EX
+    s1, s2 = "?x %s ?l . ?x %s ?pat" % (q_, p_), "?x %s ?pat . ?x %s ?l" % (p_, q_)
+    fams = [["%s FILTER(%s)" % (s1, fexpr), "%s FILTER(%s)" % (s2, fexpr)],
+            ["{ %s FILTER(%s) } UNION { %s FILTER(!(%s)) }" % (s1, fexpr, s1, fexpr), "{ %s FILTER(!(%s)) } UNION { %s FILTER(%s) }" % (s1, fexpr, s1, fexpr)],
+            ["{ %s } { ?x %s ?l FILTER(%s) }" % (s1, q_, "strlen(?l) > 0"), "{ ?x %s ?l FILTER(%s) } { %s }" % (q_, "strlen(?l) > 0", s1)]]
+    viols = []
+    n = 0
+    for fam in fams:
+        texts = ["SELECT * WHERE { %s }" % b for b in fam]
+        for gi, triples in enumerate(FUNC_GRAPHS):
+            try:
+                answers = [evaluate(build(triples), t) for t in texts]
+            except Exception as e:  # noqa: BLE001
+                viols.append({"sig": "function-call|raises|%s" % type(e).__name__, "detail": {"query": texts[0], "exc": repr(e)[:200]}, "case": {"function": fexpr}})
+                break
+            n += len(texts)
+            if any(a != answers[0] for a in answers[1:]):
+                viols.append({"sig": "function-call|rewriting-answers-differ", "detail": {"base_query": texts[0], "variant_query": texts[1], "graph": gi,
+                                                                                       "base": sorted(map(repr, answers[0].elements())), "variant": sorted(map(repr, answers[1].elements()))},
+                              "case": {"function": fexpr}})
+                break
+    # one prepared query over every sequence of <= 3 graphs
+    q = "SELECT * WHERE { %s FILTER(%s) }" % (s1, fexpr)
+    try:
+        fresh = [evaluate(build(t), q) for t in FUNC_GRAPHS]
+        for L in (1, 2, 3):
+            for seq in itertools.product(range(3), repeat=L):
+                pq = prepareQuery(q)
+                for pos, gi in enumerate(seq):
+                    n += 1
+                    got = evaluate(build(FUNC_GRAPHS[gi]), pq)
+                    if got != fresh[gi]:
+                        viols.append({"sig": "prepared-query|evaluation-%d-differs-from-fresh-parse|function-call" % (pos + 1),
+                                      "detail": {"query": q, "sequence": list(seq), "got": sorted(map(repr, got.elements())), "fresh": sorted(map(repr, fresh[gi].elements()))},
+                                      "case": {"function": fexpr}})
+                        return viols, n
+    except Exception as e:  # noqa: BLE001
+        viols.append({"sig": "function-call|raises|%s" % type(e).__name__, "detail": {"query": q, "exc": repr(e)[:200]}, "case": {"function": fexpr}})
+    return viols, n
+
+
 _THOROUGH = [False]
 
 
@@ -447,6 +505,9 @@ def _batch(arg):
         elif kind == "joins":
             v, n, nt = check_program(it, GRAPHS if _THOROUGH[0] else GRAPHS[:8], only=("operand-swap", "bgp-permutation", "prefixed-names"))
             nontriv += 1 if nt else 0
+        elif kind == "functions":
+            v, n = check_function_queries(it)
+            nontriv += 1
         elif kind == "paths":
             v, n = check_path_orders(it, PATH_GRAPHS)
             nontriv += 1
@@ -494,6 +555,7 @@ def run(ctx):
     if thorough:
         pf = pf[:: 3]
     work += [("paths", sh) for sh in R.shards(pf, ctx.jobs * 4)]
+    work += [("functions", [f]) for f in FUNC_FILTERS]
     prep = progs[:: (2 if thorough else 11)]
     work += [("prepared", sh) for sh in R.shards(prep, ctx.jobs * 4)]
     sq = store_queries(thorough)
@@ -514,7 +576,7 @@ def run(ctx):
     ctx.cov["violating_by_signature"] = dict(counts.most_common(40))
     ctx.cov["exhaustive"] = True
     ctx.cov["rule"] = ("%d queries (all C04 patterns with <=1 operator%s) x {every permutation of each BGP, every join/union operand swap, every permutation of variable names, "
-                       "3 prefix tables (one with two prefixes for the same namespace), initBindings vs VALUES for ?x bound by the outermost BGP} x %d graphs; + %d joins/unions of a BGP with every one-operator pattern x {operand swap, BGP permutation, prefixes}; + every property path of operator depth <=1 as a triple pattern next to ordinary patterns in every pattern / group order (the order decides which end of the path is bound); %d prepared queries x every sequence of <=3 evaluations over 3 graphs "
+                       "3 prefix tables (one with two prefixes for the same namespace), initBindings vs VALUES for ?x bound by the outermost BGP} x %d graphs; + %d joins/unions of a BGP with every one-operator pattern x {operand swap, BGP permutation, prefixes}; + every property path of operator depth <=1 as a triple pattern next to ordinary patterns in every pattern / group order (the order decides which end of the path is bound); + 11 filters calling string functions with arguments that vary per row (rewritings, and one prepared query over every sequence of <=3 graphs); %d prepared queries x every sequence of <=3 evaluations over 3 graphs "
                        "(with initBindings at each position); %d queries (patterns, property paths, aggregates) x {SimpleMemory, AuditableStore, ReadOnlyGraphAggregate over every "
                        "2-partition}. Oracle: multiset equality with the base query. Non-trivial: base answer non-empty on >=1 graph." % (
                            len(progs), " + a slice with 2" if thorough else "", len(GRAPHS), len(jf), len(prep), len(sq)))
@@ -523,6 +585,9 @@ def run(ctx):
 
 
 def replay(ctx, case):
+    if "function" in case:
+        v, _ = check_function_queries(case["function"])
+        return [{"sig": x["sig"], "case": case, "detail": x["detail"]} for x in v]
     if "path_orders" in case:
         v, _ = check_path_orders(C11._tuplify(case["path_orders"]), [[tuple(C04._fix(x) for x in t) for t in case["graph"]]])
         return [{"sig": x["sig"], "case": case, "detail": x["detail"]} for x in v]
